@@ -2,7 +2,7 @@
 (* Trace validation for TagCmd: one trace = one public tag operation of a real nfcpy tag object on a
    simulated tag behind a fake clf that injects the fault script.  const = [proto, nRetry, clean (hashes of
    the commands of the fault-free run), cleanRet, doc (documented failure values of the operation)].
-   Events: Send h cc | Answer rk ex | Fault k ex | Ret kind errno val | Cover N bursts scripts.
+   Events: Send h cc tp | Sense res | Answer rk ex | Fault k ex | Ret kind errno val tp | Cover N bursts scripts S gone.
    A "Cover" trace carries the list of scripts the harness ran for one (tag class, operation): it must be
    exactly TagCmd!Scripts(N, bursts) -- the harness cannot skip a case. *)
 EXTENDS TagCmd, Json, IOUtils, TLCExt
@@ -15,36 +15,41 @@ T == Traces[tid].ev
 C == Traces[tid].const
 ToSet(s) == {s[i] : i \in DOMAIN s}
 P == [proto |-> C.proto, nRetry |-> C.nRetry, clean |-> C.clean,
-      cleanRet |-> [kind |-> C.cleanRet.kind, errno |-> C.cleanRet.errno, val |-> C.cleanRet.val], doc |-> ToSet(C.doc)]
+      cleanRet |-> [kind |-> C.cleanRet.kind, errno |-> C.cleanRet.errno, val |-> C.cleanRet.val], doc |-> ToSet(C.doc),
+      gone |-> C.gone]
 
-TInit == tid \in 1..Len(Traces) /\ l = 1 /\ st = StInit
+TInit == tid \in 1..Len(Traces) /\ l = 1 /\ st = [StInit EXCEPT !.tgt = ~P.gone]
 
 Ev == T[l]
 IsEv(a) == l <= Len(T) /\ Ev.e = a /\ l' = l + 1 /\ UNCHANGED tid
 
-GSend   == IsEv("Send") /\ st' = DoSend(st, P, Ev.h, Ev.cc)
+GSend   == IsEv("Send") /\ st' = DoSend(st, P, Ev.h, Ev.cc, Ev.tp)
+GSense  == IsEv("Sense") /\ st' = DoSense(st, P, Ev.res)
 GAnswer == IsEv("Answer") /\ st' = DoAnswer(st, P, Ev.rk, Ev.ex)
 GFault  == IsEv("Fault") /\ Ev.k \in Kinds /\ st' = DoFault(st, P, Ev.k, Ev.ex)
-GRet    == IsEv("Ret") /\ st' = DoRet(st, P, [kind |-> Ev.kind, errno |-> Ev.errno, val |-> Ev.val])
+GRet    == IsEv("Ret") /\ st' = DoRet(st, P, [kind |-> Ev.kind, errno |-> Ev.errno, val |-> Ev.val], Ev.tp)
 GCover  == /\ IsEv("Cover") /\ UNCHANGED st
            /\ ToSet(Ev.scripts) = Scripts(Ev.N, ToSet(Ev.bursts))
            /\ Len(Ev.scripts) = Cardinality(Scripts(Ev.N, ToSet(Ev.bursts)))
-Guarded == GSend \/ GAnswer \/ GFault \/ GRet \/ GCover
+           /\ Ev.gone = [i \in 1..Ev.S |-> i]          \* "tag gone" at every one of the S sense calls of the operation
+Guarded == GSend \/ GSense \/ GAnswer \/ GFault \/ GRet \/ GCover
 
-InvNames == <<"Bounded", "NoResendAfterAnswer", "Retries", "OnlyTagError", "AtMostOncePerAnswer">>
+InvNames == <<"Bounded", "NoResendAfterAnswer", "Retries", "OnlyTagError", "AtMostOncePerAnswer", "TargetFollowsSense">>
 InvP(n) == CASE n = "Bounded" -> BoundedP(st', P)
              [] n = "NoResendAfterAnswer" -> NoResendAfterAnswerP(st')
              [] n = "Retries" -> RetriesP(st')
              [] n = "OnlyTagError" -> OnlyTagErrorP(st')
              [] n = "AtMostOncePerAnswer" -> AtMostOncePerAnswerP(st')
+             [] n = "TargetFollowsSense" -> TargetFollowsSenseP(st')
 AllInv == \A i \in DOMAIN InvNames : InvP(InvNames[i])
 Real == Guarded /\ AllInv
 
 FailedInv == SelectSeq(InvNames, LAMBDA n : ~ENABLED (Guarded /\ InvP(n)))
-NewViol == IF Ev.e = "Send" THEN DoSend(st, P, Ev.h, Ev.cc).viol
+NewViol == IF Ev.e = "Send" THEN DoSend(st, P, Ev.h, Ev.cc, Ev.tp).viol
+           ELSE IF Ev.e = "Sense" THEN DoSense(st, P, Ev.res).viol
            ELSE IF Ev.e = "Answer" THEN DoAnswer(st, P, Ev.rk, Ev.ex).viol
            ELSE IF Ev.e = "Fault" THEN DoFault(st, P, Ev.k, Ev.ex).viol
-           ELSE IF Ev.e = "Ret" THEN DoRet(st, P, [kind |-> Ev.kind, errno |-> Ev.errno, val |-> Ev.val]).viol
+           ELSE IF Ev.e = "Ret" THEN DoRet(st, P, [kind |-> Ev.kind, errno |-> Ev.errno, val |-> Ev.val], Ev.tp).viol
            ELSE {}
 Ctx == [pos |-> st.pos, att |-> st.att, ph |-> st.ph, cc |-> st.cc, gave |-> st.gave, lastGive |-> st.lastGive]
 Why == IF ~ENABLED Guarded THEN <<"guard", Ctx>> ELSE <<"inv", FailedInv, NewViol, Ctx>>
